@@ -23,6 +23,15 @@ add("C16", EX,
     "Trusted: refimpl::varint (self-tested against RFC 9000 A.1). Values outside the enumerated sets are not covered.",
     "exhaustive bounded input enumeration of the implementation against a reference model", "enumeration", "DESIGN.md 5/C16")
 
+add("C02", MC,
+    "Bounded exhaustive exploration of the real FrameStream::{poll_next,poll_data}: every byte string of a frame grammar (all known, HTTP/2-reserved, grease and unknown types; payloads shorter/equal/longer than the fixed fields; all varint length forms), every truncation, both stream endings, and every chunking (all 2^(n-1) chunkings of short strings, bounded cuts above) is executed and compared with an independent RFC 9114 7.1 segmenter. Decides the universally quantified 'independent of chunking' claim within the stated bounds.",
+    "Trusted: refimpl::frames. Error classes at seam 1 are mapped through h3's own got_frame_error table (the table itself is checked by the close code at seam 2). Frame type 0x41 is excluded (C19).",
+    "exhaustive enumeration of inputs x chunkings x end-of-stream positions on the implementation, reference-model oracle", "enumeration", "DESIGN.md 5/C02")
+add("C03", MC,
+    "Every frame sequence up to length N over a 15-item alphabet x ending (FIN/RESET/open) x role is played by a scripted peer against a real h3 server / client running the documented call pattern over the simnet transport; delivery is whole, per frame, per byte, and explored under a deviation bound (every chunk cut, delayed delivery and scheduling deviation). Oracle: the RFC 9114 4.1 request-stream automaton.",
+    "Trusted: refimpl::h3auto, simnet's model of QUIC stream semantics (RESET discards unread bytes). PUSH_PROMISE asserted for the server role only.",
+    "stateless DFS over environment choices (chunk cuts, delays, schedule) with deviation bound, of the implementation against a reference automaton", "dfs", "DESIGN.md 5/C03")
+
 ALL = [f"C{i:02d}" for i in range(1, 21)]
 pending_reason = "check not built yet in this revision of /verif (planned, see DESIGN.md section 5)"
 manifest = dict(
